@@ -63,6 +63,7 @@ def decName (cx : Ctx) : Route.GName → GName
   | .SQRTSWAP => .SQRTSWAP
   | .BERKELEY => .BERKELEY
   | .SWAPalpha => .SWAPalpha
+  | .RZX => .RZX
   | .other k => cx.names.getD k (.other "?")
   | .meas _ => .other "MEASUREMENT"
 
@@ -169,6 +170,48 @@ def transpileV (T : Decomp.Tables) (pre : Bool) (spec : DeviceSpec) (N : Nat) (g
     | .error e => .error e
     | .ok g1 => nativeStage T spec g1
 
+/-! ## the router that also routes RZX (`fixes/C13-3.patch`)
+
+`SCQubits` lists RZX among its native gates; the router as found does not know the name, so an RZX on
+distant qubits came out of `transpile` unrouted.  After `fixes/C13-3.patch` `to_chain_structure`
+routes it (C07: `Route.Variant.rzFix`, the two targets keep their order).  `rz` says which router
+the source has (REGENERATED: `Gen.routeRzx`); with `rz = false` everything below is the model above
+(`routeStageR_false`), and for circuits without RZX the flag is irrelevant
+(`Lemmas/TranspileRzx.lean`). -/
+
+/-- the router's name of a gate: RZX is a name of its own for the router that routes it -/
+def encNameR (rz : Bool) (cx : Ctx) (n : GName) : Route.GName :=
+  if rz && n == .RZX then .RZX else encName cx n
+
+def toRouteR (rz : Bool) (cx : Ctx) (g : Gate) : Route.Gate :=
+  ⟨encNameR rz cx g.name, g.controls, g.targets,
+    if g.name = .CNOT ∨ g.name = .CSIGN then 0 else encAng cx g.arg, 0⟩
+
+def routeStageR (rz : Bool) (N : Nat) (setup : Route.Setup) (gs : List Gate) : Except Route.Err (List Gate) :=
+  let cx := ctxOf gs
+  match Route.toChainV (.rep false rz) N setup (gs.map (toRouteR rz cx)) with
+  | .ok out => .ok (out.map (ofRoute cx))
+  | .error e => .error e
+
+def topoStageR (rz : Bool) (spec : DeviceSpec) (N : Nat) (gs : List Gate) : Except Err (List Gate) :=
+  match spec.topo with
+  | none => .ok gs
+  | some setup =>
+    match routeStageR rz N setup gs with
+    | .ok out => .ok out
+    | .error .notImplemented => .ok gs
+    | .error e => .error (.route e)
+
+/-- `ModelProcessor.transpile(qc).gates`, the router given by `rz` -/
+def transpileVR (T : Decomp.Tables) (pre rz : Bool) (spec : DeviceSpec) (N : Nat) (gs : List Gate) :
+    Except Err (List Gate) :=
+  match preStage T pre spec gs with
+  | .error e => .error e
+  | .ok g0 =>
+    match topoStageR rz spec N g0 with
+    | .error e => .error e
+    | .ok g1 => nativeStage T spec g1
+
 /-! ## the register of the circuit against the register of the processor (`fixes/C13-2.patch`)
 
 `transpile` is handed a circuit whose `qc.N` need not be the processor's `num_qubits`.  The code as
@@ -191,6 +234,15 @@ def transpileD (T : Decomp.Tables) (pre guard : Bool) (spec specSmall : DeviceSp
   if guard && decide (M < N) then .error .size
   else
     match transpileV T pre (if N < M then specSmall else spec) N gs with
+    | .ok out => .ok out
+    | .error e => .error (.inner e)
+
+/-- … with the router given by `rz` -/
+def transpileDR (T : Decomp.Tables) (pre guard rz : Bool) (spec specSmall : DeviceSpec) (M N : Nat)
+    (gs : List Gate) : Except ErrD (List Gate) :=
+  if guard && decide (M < N) then .error .size
+  else
+    match transpileVR T pre rz (if N < M then specSmall else spec) N gs with
     | .ok out => .ok out
     | .error e => .error (.inner e)
 
